@@ -367,7 +367,13 @@ pub fn check_draw(c: &DrawCase) -> CheckResult {
     }
     let got = dt.get_data();
     let (rw, rh) = c.size.unwrap_or((c.img.w as f32, c.img.h as f32));
-    let (x0, y0, x1, y1) = (c.x as f64, c.y as f64, (c.x + rw) as f64, (c.y + rh) as f64);
+    // (a negative size names the same rectangle from its other side, as fill_rect reads it; the statement does not
+    // say which way round the image then lies, so both orientations are accepted, but it is still the whole image
+    // stretched over the rectangle)
+    let (neg_w, neg_h) = (rw < 0.0, rh < 0.0);
+    let (x0, x1) = ((c.x.min(c.x + rw)) as f64, (c.x.max(c.x + rw)) as f64);
+    let (y0, y1) = ((c.y.min(c.y + rh)) as f64, (c.y.max(c.y + rh)) as f64);
+    let (rw, rh) = (rw.abs(), rh.abs());
     let integer = c.size.is_none() && c.x.fract() == 0.0 && c.y.fract() == 0.0;
     let mut inside_px = 0;
     for py in 0..c.h {
@@ -399,12 +405,18 @@ pub fn check_draw(c: &DrawCase) -> CheckResult {
                 let u = (px as f64 + 0.5 - x0) * c.img.w as f64 / rw as f64;
                 let v = (py as f64 + 0.5 - y0) * c.img.h as f64 / rh as f64;
                 let eps = (px + py + 2) as f64 / 65536.0 * (1.0 + (c.img.w as f64 / rw as f64).max(c.img.h as f64 / rh as f64)) + 2e-3;
-                let fx = floors(u - 0.5, eps);
-                let fy = floors(v - 0.5, eps);
+                let us = if neg_w { vec![u, c.img.w as f64 - u] } else { vec![u] };
+                let vs = if neg_h { vec![v, c.img.h as f64 - v] } else { vec![v] };
                 let mut ts = Vec::new();
-                for x in fx[0]..=fx[fx.len() - 1] + 1 {
-                    for y in fy[0]..=fy[fy.len() - 1] + 1 {
-                        ts.push(texel(&c.img, x, y, false));
+                for u in &us {
+                    for v in &vs {
+                        let fx = floors(u - 0.5, eps);
+                        let fy = floors(v - 0.5, eps);
+                        for x in fx[0]..=fx[fx.len() - 1] + 1 {
+                            for y in fy[0]..=fy[fy.len() - 1] + 1 {
+                                ts.push(texel(&c.img, x, y, false));
+                            }
+                        }
                     }
                 }
                 if !scaled_ok(got[i], &ts, 255.0, false, 2.0) {
@@ -424,6 +436,7 @@ pub fn check_draw(c: &DrawCase) -> CheckResult {
     }
     let distinct: std::collections::HashSet<u32> = c.img.data.iter().cloned().collect();
     o.nontrivial = inside_px > 0 && distinct.len() >= 2;
+    o.class_if(neg_w || neg_h, "negative-size");
     o.class(if c.size.is_some() { "draw_image_with_size_at" } else if integer { "draw_image_at:integer" } else { "draw_image_at:fractional" });
     Ok(o)
 }
@@ -432,7 +445,8 @@ fn draw_strategy() -> BoxedStrategy<DrawCase> {
     (2i32..=14, 2i32..=14)
         .prop_flat_map(|(w, h)| {
             let pos = prop_oneof![2 => (-6..=w, -6..=h).prop_map(|(x, y)| (x as f32, y as f32)), 1 => (-6.0f32..w as f32, -6.0f32..h as f32)];
-            let size = prop::option::weighted(0.4, (0.7f32..20.0, 0.7f32..20.0));
+            let sz = || prop_oneof![5 => 0.7f32..20.0, 1 => -20.0f32..-0.7];
+            let size = prop::option::weighted(0.4, (sz(), sz()));
             (Just((w, h)), init_pixels(w, h), image_probe(8, 8), pos, size)
         })
         .prop_map(|((w, h), init, img, (x, y), size)| DrawCase { w, h, init, img, x, y, size })
@@ -442,7 +456,7 @@ fn draw_strategy() -> BoxedStrategy<DrawCase> {
 pub fn property(_ctx: &Ctx) -> Property {
     Property {
         id: "C13",
-        rule: "part sample: images 1..8 x 1..8 (one in forty 257..300 texels long or tall) of random premultiplied texels (plus position-coded images), Pad/Repeat, Nearest/Bilinear, alpha in {1,0.5,uniform}, CTM and source transform each from {identity, integer translation (negative, beyond the image), fractional translation, half/quarter-pixel translation, scale 0.2-3, rotation x scale, integer scales 2/3/5/-1, lattice matrices (entries 0/1/-1/arbitrary) and unit-diagonal shears with whole-number translations}, optionally with user space zoomed (both matrices times 4096, 65536 or 1/64), surfaces 2..16 px, rendered with a full-surface Src fill. Oracle: f64 texel addressing M(pixel centre) (inverse CTM then source transform): nearest = texel(floor) with clamp / euclidean wrap, either neighbour accepted within the 16.16 epsilon (no allowance when both matrices are translations by multiples of 1/256, where every step is exact; half- and quarter-pixel translations are generated so that samples fall exactly on texel boundaries); bilinear within [min-2,max+2] of the four texels around (u-0.5,v-0.5), the exact texel at exactly representable texel centres; integer translations exact for both filters; alpha scaling within 1/255 (exact at alpha 1). part near-identity: surfaces 600..2048 px long, CTM or image transform within 1e-3 of an integer translation (scale 1+-e, rotation or shear of +-5e-4..9e-4), same oracle. part draw: draw_image_at at integer (exact texel placement) and fractional positions and draw_image_with_size_at with random sizes; pixels wholly outside the rectangle untouched, inside by the bilinear rule. Non-trivial: image >= 2x2 with >= 2 distinct texels and (some sample outside the image or a non-integer-translation matrix); distinct by hash of the case.",
+        rule: "part sample: images 1..8 x 1..8 (one in forty 257..300 texels long or tall) of random premultiplied texels (plus position-coded images), Pad/Repeat, Nearest/Bilinear, alpha in {1,0.5,uniform}, CTM and source transform each from {identity, integer translation (negative, beyond the image), fractional translation, half/quarter-pixel translation, scale 0.2-3, rotation x scale, integer scales 2/3/5/-1, lattice matrices (entries 0/1/-1/arbitrary) and unit-diagonal shears with whole-number translations}, optionally with user space zoomed (both matrices times 4096, 65536 or 1/64), surfaces 2..16 px, rendered with a full-surface Src fill. Oracle: f64 texel addressing M(pixel centre) (inverse CTM then source transform): nearest = texel(floor) with clamp / euclidean wrap, either neighbour accepted within the 16.16 epsilon (no allowance when both matrices are translations by multiples of 1/256, where every step is exact; half- and quarter-pixel translations are generated so that samples fall exactly on texel boundaries); bilinear within [min-2,max+2] of the four texels around (u-0.5,v-0.5) and, where that footprint is unambiguous, within 3 of the 4-bit-weighted interpolation of them (weights within 1/16 of the fractions), the exact texel at exactly representable texel centres; integer translations exact for both filters; alpha scaling within 1/255 (exact at alpha 1). part near-identity: surfaces 600..2048 px long, CTM or image transform within 1e-3 of an integer translation (scale 1+-e, rotation or shear of +-5e-4..9e-4), same oracle. part draw: draw_image_at at integer (exact texel placement) and fractional positions and draw_image_with_size_at with random sizes (one dimension in six negative: the same rectangle named from its other side, either orientation of the image accepted); pixels wholly outside the rectangle untouched, inside by the bilinear rule. Non-trivial: image >= 2x2 with >= 2 distinct texels and (some sample outside the image or a non-integer-translation matrix); distinct by hash of the case.",
         assumptions: vec!["sampling epsilon 1.5 (px+py+2)/65536 + 1e-4 (+4e-6 x coordinate scale) for the 16.16 matrix and the f32 inverse", "pixels straddling the rectangle edge of draw_image_* are not judged"],
         parts: vec![part("sample", 100_000, 2_000_000, strategy, check), part("draw", 40_000, 600_000, draw_strategy, check_draw), part("near-identity", 600, 12_000, near_identity_strategy, check)],
         min_class_fraction: vec![
